@@ -28,7 +28,7 @@ ASSUMPTIONS = [
 ]
 REQUIRED_CLAUSES = ["no-stall", "completes-exactly-once", "step-barrier", "every-allocation-runs-once", "iterations-not-cut-short", "completed-by-stops-others", "completed-by-ends-element", "complete-sent-at-most-once"]
 OPTIONAL_CLAUSES = ["complete-not-lost"]
-REQUIRED_FEATURES = {"parallel": 5, "completed-by-name": 3, "completed-by-any": 3, "over-commit": 3, "multi-host": 3, "multi-worker": 5, "adversarial-delays": 3, "empty-worker-cores": 2}
+REQUIRED_FEATURES = {"idle-between-rows-shape": 5, "parallel": 5, "completed-by-name": 3, "completed-by-any": 3, "over-commit": 3, "multi-host": 3, "multi-worker": 5, "adversarial-delays": 3, "empty-worker-cores": 2}
 BUDGET = {"quick": {"cases": 900, "seconds": 34}, "thorough": {"cases": 20000, "seconds": 700}}
 EPS = 1e-6
 
@@ -90,6 +90,23 @@ def gen_case(rng):
         else:
             elements.append({"tasks": [gen_task(rng, f"t{n}", "normal", unit_time)]})
             n += 1
+    window = rng.random() < 0.15
+    if window:
+        # Targeted shape: an over-committed completed-by element in which some clients run [short task, long task] in two rows
+        # while the completed-by task runs on OTHER workers and ends while the first worker is idle between its two rows (its
+        # executor is done, its next wake-up not yet delivered). Different wake-up phases come from message delays and jitter.
+        a, b = rng.choice([1, 2]), rng.choice([1, 2])
+        d = rng.choice([0.3, 1.0, 2.0])
+        short = gen_task(rng, f"t{n}", "normal", d)
+        short.update({"clients": a, "warmup_iterations": 0, "iterations": 1, "requests": [[{"wire": 1}]], "svc": {"mode": "const", "base": d, "seed": 1}})
+        short.pop("warmup_time_period", None), short.pop("time_period", None), short.pop("target_throughput", None)
+        comp = gen_task(rng, f"t{n + 1}", "completing", d)
+        comp.update({"clients": b, "warmup_iterations": 0, "iterations": 1, "requests": [[{"wire": 1}]], "svc": {"mode": "const", "base": d + rng.choice([0.2, 1.0, 2.5, 4.0]), "seed": 1}})
+        comp.pop("target_throughput", None)
+        long_ = gen_task(rng, f"t{n + 2}", "long", 0.3)
+        long_["clients"] = a
+        n += 3
+        elements.insert(rng.randrange(len(elements) + 1), {"parallel": True, "tasks": [short, comp, long_], "completed_by": comp["name"], "clients_cap": a + b})
     nhosts = rng.choice([1, 1, 1, 2, 3])
     case = {
         "elements": elements,
@@ -103,6 +120,12 @@ def gen_case(rng):
         "clock_offsets": rng.random() < 0.8,
         "seed": rng.randint(0, 1 << 40),
     }
+    if window:
+        case["cores"] = max(2, case["cores"])
+        case["delay"] = rng.choice(["small", "heavy", "adversarial"])
+        case["wakeup_jitter"] = rng.choice([0.05, 1.0, 1.0])
+        case["test_mode"] = False
+        case["window_shape"] = True
     return case
 
 
@@ -356,6 +379,8 @@ def features_of(case):
         f.add("adversarial-delays")
     if case["test_mode"]:
         f.add("test-mode")
+    if case.get("window_shape"):
+        f.add("idle-between-rows-shape")
     return f
 
 
